@@ -288,6 +288,9 @@ def real_call(c):
     return {"res": np.asarray(res), "mid": np.asarray(mid)}
 
 
+real_call = common.with_history(real_call)
+
+
 # ----------------------------------------------------------------------------- comparison (real vs a driver answer)
 
 def func_of(c):
@@ -433,7 +436,19 @@ def classify(run, c):
 
 def correspond(run):
     n = 500 if run.tier == "quick" else 10000
-    cases = common.load_corpus(PROP) + [gen_case(run.rng, i) for i in range(n)]
+    def sibling(rng, c):
+        # same tables / grid / box / window — other property values (and, for the blur, positions moved a little)
+        if c.get("tie"):
+            return None
+        if c["kind"] == "spatial":
+            return dict(c, x=[[[dec(rng, -5, 5) for _ in p] for p in f] for f in c["x"]])
+        if c["kind"] == "time":
+            return dict(c, x=[[dec(rng, -5, 5) for _ in row] for row in c["x"]])
+        if c["kind"] == "blur":
+            return dict(c, cond=[[[dec(rng, -3, 3, 2) for _ in p] for p in f] for f in c["cond"]],
+                        frames=[dict(f, pos=common.jitter_positions(rng, f["pos"], 0.2, 3)) for f in c["frames"]])
+        return None
+    cases = common.load_corpus(PROP) + common.add_siblings(run.rng, [gen_case(run.rng, i) for i in range(n)], sibling, every=5)
     for k in STATS:
         STATS[k] = 0
     res = evaluate(cases, "impl")
